@@ -29,7 +29,7 @@ REQUIRED_MONITORS = ["Polygon.area", "Polygon.signed_area", "Polygon.perimeter",
                      "Polygon.planar_moments_inertia(xy,+z)", "Polygon.polar_moment_inertia", "Polygon.inertia_tensor",
                      "lattice-exact"]
 REQUIRED_CLASSES = ["orient:cw", "orient:ccw", "plane:tilted", "plane:xy", "kind:comb", "kind:star", "kind:lattice",
-                    "kind:convex", "kind:spiral", "history:aged-object"]
+                    "kind:convex", "kind:spiral", "history:aged-object", "polygon:far-from-origin"]
 
 
 def ncases(tier):
@@ -43,6 +43,9 @@ def _facts(s):
     E["L"] = float(np.linalg.norm(V, axis=1).max())
     E["d"] = gen.diameter(V)
     E["n"] = n / np.linalg.norm(n)
+    # far from the origin for its size (L/d > 1e4): the area is judged against what the input's conditioning allows
+    # (eps*L*d for a shoelace over coordinates of magnitude L) with four orders of slack, not the nine digits of L*d
+    E["ktol"] = 1e-12 if E["L"] > 1e4 * E["d"] else 1e-9
     return E
 
 
@@ -62,11 +65,11 @@ def setup(rec, tier):
 
     def area_post(s, a, k, res, tok):
         E = _facts(s)
-        rec.close("Polygon.area", float(res), E["area"], 1e-9 * E["L"] * E["d"], "Polygon.area/" + tags(E), lambda: _wit(s))
+        rec.close("Polygon.area", float(res), E["area"], E["ktol"] * E["L"] * E["d"], "Polygon.area/" + tags(E), lambda: _wit(s))
 
     def sarea_post(s, a, k, res, tok):
         E = _facts(s)
-        rec.close("Polygon.signed_area", float(res), E["signed_area"], 1e-9 * E["L"] * E["d"],
+        rec.close("Polygon.signed_area", float(res), E["signed_area"], E["ktol"] * E["L"] * E["d"],
                   "Polygon.signed_area/" + tags(E), lambda: _wit(s))
 
     def per_post(s, a, k, res, tok):
@@ -76,6 +79,12 @@ def setup(rec, tier):
 
     def cen_post(s, a, k, res, tok):
         E = _facts(s)
+        if E["L"] > 1e3 * E["d"]:
+            # more than 1e3 sizes from the origin: first and second moments about that origin are computed in the global frame
+            # by coxeter (cancellation eps*(L/d)^2 is inherent to that documented approach; the stated offsets end at ~10
+            # sizes); only the translation-invariant measures (area, signed area, perimeter) are judged out there
+            rec.note("far from the origin (> 1e3 sizes): centroid and moments not judged")
+            return
         got = np.asarray(res, float)
         c, n = E["centroid"], E["n"]
         tol = 1e-9 * E["L"]
@@ -88,11 +97,22 @@ def setup(rec, tier):
 
     def planar_post(s, a, k, res, tok):
         E = _facts(s)
+        if E["L"] > 1e3 * E["d"]:
+            # more than 1e3 sizes from the origin: first and second moments about that origin are computed in the global frame
+            # by coxeter (cancellation eps*(L/d)^2 is inherent to that documented approach; the stated offsets end at ~10
+            # sizes); only the translation-invariant measures (area, signed area, perimeter) are judged out there
+            rec.note("far from the origin (> 1e3 sizes): centroid and moments not judged")
+            return
         n = E["n"]
         got = np.array([float(x) for x in res])
         V = np.asarray(s.vertices, float)
         if n[2] > 1 - 1e-14 and np.all(np.abs(V[:, 2] - V[0, 2]) <= 1e-12 * (1 + E["L"])):
-            _, _, (iyy, ixx, ixy) = geom.poly2d_moments(V[:, :2])
+            if E["L"] > 100 * E["d"]:
+                # moments about a far origin: the float shoelace loses eps*L^4 - exact rationals of the same doubles instead
+                _, _, mom = geom.poly2d_moments([(Fraction(float(x)), Fraction(float(y))) for x, y in V[:, :2]])
+                iyy, ixx, ixy = (float(m) for m in mom)
+            else:
+                _, _, (iyy, ixx, ixy) = geom.poly2d_moments(V[:, :2])
             want = np.array([iyy, ixx, ixy])
             tol = 1e-9 * E["area"] * E["L"] ** 2
             mech = "Polygon.planar_moments_inertia/" + tags(E)
@@ -104,6 +124,12 @@ def setup(rec, tier):
 
     def polar_post(s, a, k, res, tok):
         E = _facts(s)
+        if E["L"] > 1e3 * E["d"]:
+            # more than 1e3 sizes from the origin: first and second moments about that origin are computed in the global frame
+            # by coxeter (cancellation eps*(L/d)^2 is inherent to that documented approach; the stated offsets end at ~10
+            # sizes); only the translation-invariant measures (area, signed area, perimeter) are judged out there
+            rec.note("far from the origin (> 1e3 sizes): centroid and moments not judged")
+            return
         c, n = E["centroid"], E["n"]
         cpar = c - np.dot(c, n) * n
         want = E["polar_c"] + E["area"] * float(np.dot(cpar, cpar))
@@ -112,6 +138,12 @@ def setup(rec, tier):
 
     def it_post(s, a, k, res, tok):
         E = _facts(s)
+        if E["L"] > 1e3 * E["d"]:
+            # more than 1e3 sizes from the origin: first and second moments about that origin are computed in the global frame
+            # by coxeter (cancellation eps*(L/d)^2 is inherent to that documented approach; the stated offsets end at ~10
+            # sizes); only the translation-invariant measures (area, signed area, perimeter) are judged out there
+            rec.note("far from the origin (> 1e3 sizes): centroid and moments not judged")
+            return
         got = np.asarray(res, float)
         tol = 1e-8 * E["area"] * E["L"] ** 2
         mech = "Polygon.inertia_tensor/" + tags(E)
@@ -133,9 +165,11 @@ MEMBERS = ["area", "signed_area", "perimeter", "centroid", "center", "planar_mom
 
 def run_case(i, rng, rec, tier, state):
     cs = state["cs"]
-    c = gen.polygon_case(rng)
+    c = gen.polygon_case(rng, far_frac=0.05)
     if c.get("straight_corner") is not None:
         rec.cls("polygon:straight-corner" + (":first-three-collinear" if c["straight_corner"] == 1 else ""))
+    if c["far"]:
+        rec.cls("polygon:far-from-origin")
     V = c["V"]
     use_convex = c["convex"] and rng.random() < 0.4
     cls = cs.ConvexPolygon if use_convex else cs.Polygon
